@@ -26,10 +26,14 @@ CHECKS = [
   "Same drivers and model as C02 with a truncation-heavy generator: cut points any / around and across 128-record index boundaries / two boundaries back / last N / end, re-append shorter, equal and longer than the removed entries (single and batch), with pointer files present (L2), then optional reopen. After every step [..,k) is unchanged, [k,..) unreadable, the append at k accepted, and the same again after reopen.",
   "As C02. Closed-file truncation after a real rollover only in the thorough tier.",
   "property-based testing (proptest) with a reference model (stateful, vec(op) + interpreter)"),
+ chk("C05", "E1 store mode (FileStore actor chain, fresh actix System per phase)", "exploration",
+  "Model-based: generated interleavings of every writer of the shared index file (save_hard_state, SaveMember, AddNodeAddr with 5..200-char addresses so records shrink after growing, log catalogue via appends, snapshot catalogue via compaction pointer, snapshot install = SaveSnapshots + SaveMember + SaveLogs, last-applied header) with reopens; get_initial_state / get_membership_config / get_target_addr must equal the last acknowledged values after every op and after every reopen, and the observed term never decreases.",
+  "Stop points are after a write barrier (acknowledged writes have reached the OS). RaftIndexManager acknowledges before the write is issued (DESIGN F14): that window is timing dependent and not asserted. Histories start with a term >= 1 save and members_after_consensus is only ever None, as every real caller does.",
+  "property-based testing (proptest) with a last-acknowledged-value model (stateful, vec(op) + interpreter)"),
 ]
 
 ENGINES = [
- {"name": "E1", "path": "harness/src", "serves_properties": ["C20", "C02", "C03"],
+ {"name": "E1", "path": "harness/src", "serves_properties": ["C20", "C02", "C03", "C05"],
   "kind_free_text": "in-process proptest model-based / round-trip checks linked against /repo as a library (fresh actix System per phase for the file-store actor chain)"},
 ]
 
